@@ -18,8 +18,9 @@
                                                      rewrite raises after the metadata was applied
                                                      (e.g. a collection called without its bank) /
                                                      a later metadata item itself raises
-     on     same | other | otherbk                   the executor the probe will use, another
-                                                     instance, an executor of another backend
+     on     same | other | otherbk | otherbk2        the executor the probe will use, another
+                                                     instance, an executor of another backend (CMS AOD),
+                                                     of a third backend (CMS miniAOD)
    Two instantiations of the effect of an operation:
      Impl = "as_implemented"  reset() only after a successful write, enums never cleared, ...
                               (the tree before the C07 repairs; TLC produces the shortest leaks)
@@ -36,7 +37,7 @@ CONSTANTS MaxLen, Impl
 Kinds == {"decl", "decldef", "enum", "block", "ext", "coll", "fn", "plain"}
 Decls == {"decl", "decldef"}
 Outs  == {"ok", "tfail", "rfail", "mfail"}
-Execs == {"same", "other", "otherbk"}
+Execs == {"same", "other", "otherbk", "otherbk2"}
 Op == [kind : Kinds, out : Outs, on : Execs]
 
 VARIABLES hist, mt, en, shared, blk, fnd, nm
